@@ -136,6 +136,8 @@ def main(argv=None):
                     except Exception as e:  # worker died (BrokenProcessPool) -- never a verdict
                         results.append({'cfg': j[1], 'inconclusive': ['worker failed: %s: %s' % (type(e).__name__, e)]})
                     done_cfgs.add(id(j))
+                    if os.environ.get('VERIF_PROGRESS'):
+                        print('  [%4.0fs] %d/%d done: %s' % (time.time() - t0, len(done_cfgs), len(jobs), j[1].get('name', '')), file=sys.stderr, flush=True)
             except Exception as e:
                 for fu, j in futs.items():
                     if id(j) not in done_cfgs:
